@@ -6,7 +6,10 @@ set -u
 ID=$(basename $(ls -d /verif/seeded/$1* | head -1)); shift
 WT=/tmp/seedwt.$$
 git -C /repo worktree add -q --detach $WT HEAD || exit 2
-( cd $WT && git apply /verif/seeded/$ID/patch.diff ) || { echo "patch does not apply to HEAD"; git -C /repo worktree remove --force $WT; exit 2; }
+P=/verif/seeded/$ID/patch.diff
+# patch_head.diff = the same change re-based by hand where later fix: commits moved the context
+[ -f /verif/seeded/$ID/patch_head.diff ] && P=/verif/seeded/$ID/patch_head.diff
+( cd $WT && git apply $P ) || { echo "patch does not apply to HEAD"; git -C /repo worktree remove --force $WT; exit 2; }
 for args in "$@"; do
   tag=$(echo $args | tr ' ,' '__' | tr -cd 'A-Za-z0-9_')
   out=/verif/seeded/$ID/check_rerun_$tag.out
